@@ -53,6 +53,8 @@ type PayloadShape struct {
 	// Commission (rewards payloads only): commission strings of two further reward entries, e.g. "7" and "" or
 	// a value that is not a number
 	Commission []string `json:"commission,omitempty"`
+	// BigAmounts (rewards payloads only): the first reward's lamports and post balance are above 2^53
+	BigAmounts bool `json:"big_amounts,omitempty"`
 }
 
 type TxShape struct {
@@ -66,9 +68,10 @@ type TxShape struct {
 	FailKind int `json:"fail_kind,omitempty"`
 	// MetaGarbage: the stored metadata is bytes that are neither protobuf nor bincode status metadata
 	MetaGarbage bool         `json:"meta_garbage,omitempty"`
-	NoIndex     bool         `json:"no_index,omitempty"` // position index omitted
-	NoMeta      bool         `json:"no_meta,omitempty"`  // empty metadata
-	TxPad       int          `json:"tx_pad,omitempty"`   // extra instruction data bytes
+	NoIndex     bool         `json:"no_index,omitempty"`    // position index omitted
+	NoMeta      bool         `json:"no_meta,omitempty"`     // empty metadata
+	BigAmounts  bool         `json:"big_amounts,omitempty"` // fee, balances and compute units above 2^53 (not representable as float64)
+	TxPad       int          `json:"tx_pad,omitempty"`      // extra instruction data bytes
 	Meta        PayloadShape `json:"meta,omitempty"`
 	Data        PayloadShape `json:"data,omitempty"` // frame layout of the transaction bytes (default: one frame)
 	Sig         *[64]byte    `json:"sig,omitempty"`  // explicit first signature (collision scenarios)
@@ -103,39 +106,42 @@ type ObjTruth struct {
 }
 
 type TxTruth struct {
-	Sig       solana.Signature
-	Cid       cid.Cid
-	Slot      uint64
-	Position  int
-	HasIndex  bool
-	TxBytes   []byte
-	MetaBytes []byte             // uncompressed protobuf (nil when NoMeta)
-	MetaZstd  []byte             // as stored
-	Accounts  []solana.PublicKey // static keys + loaded keys
-	Static    []solana.PublicKey
-	Vote      bool
-	Failed    bool
-	Fee       uint64
-	Logs      []string
-	Block     int // index into Blocks
-	Obj       int // index into Objects
+	Sig                       solana.Signature
+	Cid                       cid.Cid
+	Slot                      uint64
+	Position                  int
+	HasIndex                  bool
+	TxBytes                   []byte
+	MetaBytes                 []byte             // uncompressed protobuf (nil when NoMeta)
+	MetaZstd                  []byte             // as stored
+	Accounts                  []solana.PublicKey // static keys + loaded keys
+	Static                    []solana.PublicKey
+	Vote                      bool
+	Failed                    bool
+	Fee                       uint64
+	PreBalances, PostBalances []uint64
+	Logs                      []string
+	Block                     int // index into Blocks
+	Obj                       int // index into Objects
 }
 
 type BlockTruth struct {
-	Slot          uint64
-	Cid           cid.Cid
-	Parent        uint64
-	Blocktime     int64
-	Height        uint64
-	HasHeight     bool
-	LastEntryHash []byte
-	NumEntries    int
-	Txs           []int  // indices into Txs, position order
-	Rewards       []byte // as stored (zstd)
-	RewardsRaw    []byte // uncompressed protobuf
-	RewardsCid    cid.Cid
-	Obj           int
-	FirstObj      int // index of the first object belonging to this block's DAG
+	Slot              uint64
+	Cid               cid.Cid
+	Parent            uint64
+	Blocktime         int64
+	Height            uint64
+	HasHeight         bool
+	LastEntryHash     []byte
+	NumEntries        int
+	Txs               []int  // indices into Txs, position order
+	Rewards           []byte // as stored (zstd)
+	RewardsRaw        []byte // uncompressed protobuf
+	RewardsCid        cid.Cid
+	RewardLamports    int64 // first reward entry
+	RewardPostBalance uint64
+	Obj               int
+	FirstObj          int // index of the first object belonging to this block's DAG
 }
 
 type Truth struct {
@@ -367,6 +373,10 @@ func Generate(shape Shape) *Truth {
 		if bs.Rewards != nil {
 			// a valid Rewards protobuf; padding = extra reward entries with incompressible keys
 			rws := &confirmed_block.Rewards{Rewards: []*confirmed_block.Reward{{Pubkey: Account(7).String(), Lamports: int64(slot), PostBalance: 42, RewardType: confirmed_block.RewardType_Fee}}}
+			if bs.Rewards.BigAmounts {
+				rws.Rewards[0].Lamports, rws.Rewards[0].PostBalance = 9007199254740993, 18446744073709551615
+			}
+			bt.RewardLamports, bt.RewardPostBalance = rws.Rewards[0].Lamports, rws.Rewards[0].PostBalance
 			for ci, cm := range bs.Rewards.Commission {
 				rws.Rewards = append(rws.Rewards, &confirmed_block.Reward{Pubkey: Account(20 + ci).String(), Lamports: 5, PostBalance: 6, RewardType: confirmed_block.RewardType_Voting, Commission: cm})
 			}
@@ -506,6 +516,12 @@ func (g *gen) tx(ts TxShape, slot uint64, pos, blockIdx, counter int) TxTruth {
 			PostBalances: []uint64{1_000_000 - fee, 5},
 			LogMessages:  logs,
 		}
+		if ts.BigAmounts {
+			fee = 9007199254740993 + 2*uint64(counter)
+			cu := uint64(9007199254740995)
+			meta.Fee, meta.PreBalances, meta.PostBalances, meta.ComputeUnitsConsumed = fee, []uint64{18446744073709551615, 400000000000000001}, []uint64{18446744073709551615 - fee, 400000000000000001}, &cu
+		}
+		tt.PreBalances, tt.PostBalances = meta.PreBalances, meta.PostBalances
 		if ts.Failed {
 			// bincode of TransactionError::InstructionError(0, InstructionError::Custom(7))
 			meta.Err = &confirmed_block.TransactionError{Err: []byte{8, 0, 0, 0, 0, 25, 0, 0, 0, 7, 0, 0, 0}}
